@@ -35,6 +35,14 @@ impl RoomNode {
     /// validate signature and basic data consistency
     ///
     pub fn check_consistency(&self) -> Result<()> {
+        //an entry appears once in its list: the history merge identifies entries by their id
+        if has_duplicate_ids(self.admin_nodes.iter().map(|u| &u.node.id))
+            || has_duplicate_ids(self.auth_nodes.iter().map(|a| &a.node.id))
+        {
+            return Err(Error::InvalidNode(
+                "RoomNode has duplicate entries".to_string(),
+            ));
+        }
         //check admin consistency
         if self.admin_edges.len() != self.admin_nodes.len() {
             return Err(Error::InvalidNode(
@@ -201,6 +209,14 @@ impl AuthorisationNode {
     /// validate basic data consistency
     ///
     pub fn check_consistency(&self) -> Result<()> {
+        if has_duplicate_ids(self.right_nodes.iter().map(|n| &n.node.id))
+            || has_duplicate_ids(self.user_nodes.iter().map(|n| &n.node.id))
+            || has_duplicate_ids(self.user_admin_nodes.iter().map(|n| &n.node.id))
+        {
+            return Err(Error::InvalidNode(
+                "AuthorisationNode has duplicate entries".to_string(),
+            ));
+        }
         //check right consistency
         if self.right_edges.len() != self.right_nodes.len() {
             return Err(Error::InvalidNode(
@@ -513,6 +529,16 @@ impl EntityRightNode {
 
         Ok(entity_right)
     }
+}
+
+fn has_duplicate_ids<'a>(ids: impl Iterator<Item = &'a Uid>) -> bool {
+    let mut seen = std::collections::HashSet::new();
+    for id in ids {
+        if !seen.insert(id) {
+            return true;
+        }
+    }
+    false
 }
 
 ///
